@@ -270,7 +270,10 @@ def _judge_grid2d(rec, crec, want, ext, inverse, w, detail):
     sel = [int(i) for i in np.where(want)[0]]
     uncovered = [i for i in sel if i not in match]
     if uncovered:
-        return [("subgrid-covers-selection", f"{w}: a selected cell is not part of the returned sub-grid",
+        cols, rows = sorted({i % rec["nu"] for i in sel}), sorted({i // rec["nu"] for i in sel})
+        gaps = (cols[-1] - cols[0] + 1 != len(cols)) or (rows[-1] - rows[0] + 1 != len(rows))
+        how = "selection skips a column or row" if gaps else "selected columns and rows are adjacent"
+        return [("subgrid-covers-selection", f"{w}: a selected cell is not part of the returned sub-grid ({how})",
                  dict(detail, uncovered=uncovered, shape=[crec["nu"], crec["nv"]]))]
     out = []
     if not inverse and sel:
